@@ -16,7 +16,8 @@ LEVEL = "exploration"
 RULE = (
     "enum-slice1d: EVERY slice(start, stop, step) with start,stop in {None,-n-2..n+2}, step in {None,+-1,+-2,+-3} on 1-d "
     "arrays of length 0..4 (thorough 0..5) under ALL chunkings; enum-take1d: every integer list of length<=3 (thorough 4) "
-    "with entries in [-n,n-1] on axes of length 1..4 under all chunkings (as list / NumPy array / dask array); enum-grid2d: "
+    "with entries in [-n,n-1] on axes of length 1..4 under all chunkings (as list / NumPy array / dask array); enum-take-perm: "
+    "every ordered selection of 3 distinct positions of a length-6 axis under all 32 chunkings; enum-grid2d: "
     "a fixed set of 13 per-axis indices (ints, slices of both step signs, lists) in all pairs on a 3x3 array under all 16 "
     "chunkings; random: arrays of 0-3 dims (sides 0..6, random chunkings incl. explicit zero-size chunks) indexed with "
     "random combinations of slices, ints (+-, Python/NumPy), None, Ellipsis, at most one 1-d integer indexer (sorted, "
@@ -465,6 +466,19 @@ def enum_take1d(tier):
                     yield {"array": arange_spec([n], ch), "mode": "getitem", "index": [item], "bare": bool(i % 2)}
 
 
+def enum_take_perm(tier):
+    """Ordered selections of 3 (thorough: also 4) distinct positions of a length-6 axis: the smallest size at which
+    take() merges pieces of several source chunks into one output chunk and has to restore a non-involutive order."""
+    n = 6
+    i = 0
+    for ch in A.all_chunkings([n]):
+        for k in (3,) if tier == "quick" else (3, 4):
+            for v in itertools.permutations(range(n), k):
+                i += 1
+                item = {"k": "ints", "v": list(v), "as": "np" if i % 2 else "list"}
+                yield {"array": arange_spec([n], ch), "mode": "getitem", "index": [item], "bare": bool(i % 3)}
+
+
 GRID_AXIS_INDICES = [
     {"k": "int", "v": 0},
     {"k": "int", "v": -1},
@@ -628,6 +642,16 @@ SUBCHECKS = [
         classes=classes,
         exhaustive=True,
         doc="every integer list of length <=3 (thorough 4) over [-n,n-1], 1-d length 1..4, all chunkings; list/NumPy/dask indexer in rotation",
+    ),
+    Sub(
+        "enum-take-perm",
+        check,
+        kind="enum",
+        cases=enum_take_perm,
+        nontrivial=nontrivial,
+        classes=classes,
+        exhaustive=True,
+        doc="every ordered selection of 3 (thorough: 3 and 4) distinct positions of a length-6 axis under all 32 chunkings",
     ),
     Sub(
         "enum-grid2d",
